@@ -675,6 +675,62 @@ def run_field_guards(chk, F, control=False):
     chk.count('members handled under an option test in copy-like functions', n)
 
 
+def run_tree_roundtrip_clauses(chk, F):
+    """E5-size-per-node: the announced serialisation size adds `get_serialization_size_of(value)` for every node: each
+    such call sits in a loop over the members and takes the value of the loop's node - it is not multiplied by a count
+    (a value type may serialise with a length that depends on the value).
+    E1-root-retarget: `move_from` re-targets every vertex of the root it takes over: the vertices with children get
+    `children()->oncles_ = &root_`, the leaves `assign_children(&root_)` (a leaf's children pointer designates the set
+    it lives in): both arms of the test are there, otherwise the leaves of the moved-to tree keep pointing into the
+    source object."""
+    fs = [f for f in F.funcs(cls='Simplex_tree', unit='st_pat') if f['inst'] in (0, 2) and f.get('body') is not None
+          and ir.contains(f['body'], lambda y: ir.is_call(y) and ir.call_name(y) == 'get_serialization_size_of')]
+    k = 0
+    for f in fs:
+        par = ir.parents(f['body'])
+        for x in ir.walk(f['body']):
+            if not (ir.is_call(x) and ir.call_name(x) == 'get_serialization_size_of'):
+                continue
+            k += 1
+            up = par.get(id(x))
+            while up is not None and up.get('k') in ('ImplicitCastExpr', 'ParenExpr'):
+                up = par.get(id(up))
+            multiplied = up is not None and up.get('k') == 'BinaryOperator' and up.get('op') == '*'
+            inloop = False
+            cur = x
+            while id(cur) in par:
+                cur = par[id(cur)]
+                if cur.get('k') in ('ForStmt', 'CXXForRangeStmt', 'WhileStmt'):
+                    inloop = True
+            ok = inloop and not multiplied
+            chk.ob('E5-size-per-node', 'Simplex_tree::%s adds the serialised size of each node\'s own value' % f['name'],
+                   '%s:%s' % (rel(f['file']), x.get('l')), ok,
+                   '' if ok else '`%s` is %s: a value whose serialised length depends on the value makes the announced '
+                   'size differ from what serialize() writes (buffer overflow before the final test)' % (
+                       ir.show(up if multiplied else x)[:70], 'multiplied by a count' if multiplied else
+                       'not inside the loop over the nodes'), key='E5|Simplex_tree::%s|size-per-node' % f['name'])
+    chk.expect_count('E5-size-per-node', 'serialised-size queries', k, 1)
+    mf = [f for f in F.funcs('move_from', cls='Simplex_tree', unit='st_pat') if f['inst'] in (0, 2) and
+          f.get('body') is not None]
+    if not mf:
+        raise AnalysisBroken('C15: Simplex_tree::move_from not found')
+    f = mf[0]
+    loops = [x for x in ir.walk(f['body']) if x.get('k') in ('CXXForRangeStmt', 'ForStmt') and
+             'members' in ir.show(x.get('range') or x.get('cond') or {})]
+    ok = False
+    for lp in loops:
+        has_onc = ir.contains(lp.get('body'), lambda y: ir.write_target(y) is not None and 'oncles_' in
+                              ir.show(ir.write_target(y)))
+        has_assign = ir.contains(lp.get('body'), lambda y: ir.is_call(y) and ir.call_name(y) == 'assign_children')
+        if has_onc and has_assign:
+            ok = True
+    chk.ob('E1-root-retarget', 'Simplex_tree::move_from re-targets the root vertices with children and the leaves',
+           '%s:%d' % (rel(f['file']), f['line']), ok,
+           '' if ok else 'the loop over the root members does not both set `children()->oncles_` and call '
+           '`assign_children(&root_)`: one kind of vertex keeps pointing into the source object',
+           key='E1|Simplex_tree::move_from|root-retarget')
+
+
 def run_scalar_init(chk, F):
     """E1i-scalar-init: the iterators and ranges of the simplex tree are copied around by value (boost::iterator_range,
     filter adaptors): copying an object loads every scalar member, and loading an indeterminate bool / pointer is
@@ -1286,6 +1342,7 @@ def run(tier, replay=None):
     run_scalar_init(chk, F)
     run_copy_counters(chk, F)
     run_field_guards(chk, F)
+    run_tree_roundtrip_clauses(chk, F)
     run_field_guards(chk, facts.extract(CONTROL_UNITS), control=True)
     run_text_roundtrip(chk, F)
     run_moved_from(chk, F)
